@@ -1927,19 +1927,14 @@ clientReplyContext::processReplyAccessResult(const Acl::Answer &accessAllowed)
     if ((!http->request->range))
         next()->readBuffer.offset = 0;
 
-    if (next()->readBuffer.offset > 0) {
-        if (Less(body_size, next()->readBuffer.offset)) {
-            /* Can't use any of the body we received. send nothing */
-            localTempBuffer.length = 0;
-            localTempBuffer.data = nullptr;
-        } else {
-            localTempBuffer.length = body_size - next()->readBuffer.offset;
-            localTempBuffer.data = body_buf + next()->readBuffer.offset;
-        }
-    } else {
-        localTempBuffer.length = body_size;
-        localTempBuffer.data = body_buf;
-    }
+    // Always hand down the body bytes we have, labelled with their real
+    // offset (zero). A positive next()->readBuffer.offset only says where a
+    // Range request wants to start reading; Http::Stream skips bytes before
+    // the first range itself (lengthToSend()/packRange()), and it may still
+    // decide to ignore the Range header (buildRangeHeader()), in which case
+    // the response body must start at offset zero.
+    localTempBuffer.length = body_size;
+    localTempBuffer.data = body_buf;
 
     clientStreamCallback((clientStreamNode *)http->client_stream.head->data,
                          http, reply, localTempBuffer);
